@@ -548,11 +548,144 @@ func c18Canon(model string) (canon string, crash bool) {
 	return strings.Join(evs, ","), crash
 }
 
+// ---- sessions: several commands on ONE connection ------------------------------------
+//
+// Inter-node connections are long-lived and pooled by cluster.Client, so what a
+// connection was allowed to do earlier must not influence what a later command on
+// it may do. A session sends 2-3 commands (present payload, no failing action) with
+// different credential presentations on one connection, reading one response frame
+// after each; only the last command may be BACKUP_STREAM (its stream has no end
+// marker). Every command is judged on its own: by the model (whose command
+// semantics has no per-connection state) and by the documented rule.
+
+type c18Step struct {
+	cmd   *c18Cmd
+	voter bool
+	pres  c18Pres
+}
+
+func (k c18Step) asCase() c18Case {
+	return c18Case{cmd: k.cmd, payload: "set", voter: k.voter, pres: k.pres}
+}
+
+type c18StepObs struct {
+	events  string
+	errText string
+	leak    bool
+}
+
+func (n *c18Node) session(t *testing.T, steps []c18Step) []c18StepObs {
+	conn, err := n.tn.Dial(n.svc.Addr(), 5*time.Second)
+	if err != nil {
+		t.Fatalf("dial: %v", err)
+	}
+	defer conn.Close()
+	conn.SetDeadline(time.Now().Add(30 * time.Second))
+	var out []c18StepObs
+	for i, st := range steps {
+		c := &proto.Command{Type: st.cmd.typ}
+		st.cmd.set(c, st.voter)
+		if st.pres.creds {
+			c.Credentials = &proto.Credentials{Username: st.pres.user, Password: st.pres.pass}
+		}
+		n.rec.take()
+		n.rec.fail = nil
+		select {
+		case <-n.hwmC:
+		default:
+		}
+		p, _ := pb.Marshal(c)
+		if _, err := conn.Write(c18Frame(p)); err != nil {
+			t.Fatalf("session write: %v", err)
+		}
+		last := i == len(steps)-1
+		var body, rest []byte
+		if last {
+			conn.(*net.TCPConn).CloseWrite()
+			all, err := io.ReadAll(conn)
+			if err != nil || len(all) < 8 {
+				t.Fatalf("session: reading the last answer: %v (%d bytes)", err, len(all))
+			}
+			sz := binary.LittleEndian.Uint64(all[:8])
+			body, rest = all[8:8+sz], all[8+sz:]
+		} else {
+			hdr := make([]byte, 8)
+			if _, err := io.ReadFull(conn, hdr); err != nil {
+				t.Fatalf("session: reading answer %d: %v", i, err)
+			}
+			body = make([]byte, binary.LittleEndian.Uint64(hdr))
+			if _, err := io.ReadFull(conn, body); err != nil {
+				t.Fatalf("session: reading answer %d: %v", i, err)
+			}
+		}
+		if st.cmd.name == "BACKUP" {
+			gz, err := gzip.NewReader(bytes.NewReader(body))
+			if err != nil {
+				t.Fatalf("session: backup response not gzip: %v", err)
+			}
+			body, _ = io.ReadAll(gz)
+		}
+		evs := n.rec.take()
+		txt, only := c18OnlyErrorField(body)
+		o := c18StepObs{errText: txt}
+		if txt != "" {
+			evs = append(evs, "resp-err")
+			o.leak = !only || bytes.Contains(body, []byte(c18Marker)) || len(rest) > 0
+		} else {
+			evs = append(evs, "resp-ok")
+		}
+		if len(rest) > 0 {
+			evs = append(evs, "stream")
+		}
+		sort.Strings(evs)
+		o.events = strings.Join(evs, ",")
+		out = append(out, o)
+	}
+	return out
+}
+
+func c18Sessions(r *vfRng) [][]c18Step {
+	var guarded []*c18Cmd
+	for i := range c18Cmds {
+		if c18Cmds[i].need != nil {
+			guarded = append(guarded, &c18Cmds[i])
+		}
+	}
+	var ss [][]c18Step
+	// same command twice, every ordered pair of presentations
+	for _, c := range guarded {
+		for _, p1 := range c18Presentations {
+			for _, p2 := range c18Presentations {
+				if c.name == "BACKUP_STREAM" {
+					// only allowed as the last command: precede it with BACKUP (same permission)
+					ss = append(ss, []c18Step{{guarded[3], false, p1}, {c, false, p2}})
+					continue
+				}
+				v := c.name == "JOIN" && r.Bool()
+				ss = append(ss, []c18Step{{c, v, p1}, {c, v, p2}})
+			}
+		}
+	}
+	// mixed commands, three steps
+	for i := 0; i < vfScale(60, 300); i++ {
+		var st []c18Step
+		for j := 0; j < 3; j++ {
+			c := guarded[r.Intn(len(guarded))]
+			for c.name == "BACKUP_STREAM" && j < 2 {
+				c = guarded[r.Intn(len(guarded))]
+			}
+			st = append(st, c18Step{c, r.Bool(), c18Presentations[r.Intn(len(c18Presentations))]})
+		}
+		ss = append(ss, st)
+	}
+	return ss
+}
+
 func TestVerifC18(t *testing.T) {
-	rep := vfNewReport("C18", "cluster: every inter-node command type x payload (present/absent/other kind; JOIN voter or not) x action outcome x credential store (none, or 1-3 generated entries over users {a,b,*}, passwords {p,q}, perms from the documented set) x presentation (none, a/p, a/q, b/p, unknown user, empty user), one frame per TCP connection, all bytes read until close; a store is non-trivial when it authorises some and refuses other cases; distinct by store text")
+	rep := vfNewReport("C18", "cluster: every inter-node command type x payload (present/absent/other kind; JOIN voter or not) x action outcome x credential store (none, or 1-3 generated entries over users {a,b,*}, passwords {p,q}, perms from the documented set) x presentation (none, a/p, a/q, b/p, unknown user, empty user), one frame per TCP connection, all bytes read until close; plus sequences of 2-3 commands with different presentations on ONE connection (every ordered pair of presentations per command, and random mixed triples); a store is non-trivial when it authorises some and refuses other cases; distinct by store text")
 	defer rep.Write()
 	r := vfNewRng(18)
-	nStores := vfScale(16, 400)
+	nStores := vfScale(16, 150)
 	cases := c18Cases()
 
 	type storeSpec struct {
@@ -652,6 +785,63 @@ func TestVerifC18(t *testing.T) {
 				}
 			}
 			rep.TracesValidated++
+		}
+		// ---- sessions on one connection (stores with credentials only; every other store in the quick tier)
+		if sp.with && (vfThorough() || si%2 == 0) {
+			sessions := c18Sessions(r)
+			sops := append([]string(nil), ops[:pre]...)
+			for _, ss := range sessions {
+				for _, st := range ss {
+					sops = append(sops, st.asCase().opLine())
+				}
+			}
+			smodel, err := vfModel("wire", sops)
+			if err != nil {
+				rep.Disagree(vfDisagreement{Component: "wire", Ops: vfTrunc(sops), Note: err.Error(), At: -1})
+				return
+			}
+			mi := pre
+			for _, ss := range sessions {
+				obs := node.session(t, ss)
+				var seq []string
+				for _, st := range ss {
+					seq = append(seq, fmt.Sprintf("%s as %s(%q,%q)", st.cmd.name, st.pres.name, st.pres.user, st.pres.pass))
+				}
+				for j, st := range ss {
+					want, _ := c18Canon(smodel[mi])
+					mi++
+					rep.Count("cluster-session:step")
+					if obs[j].events != want {
+						rep.Count("cluster-session:steps-disagreeing")
+						rep.Disagree(vfDisagreement{Component: "wire", Ops: append(append([]string(nil), ops[:pre]...), st.asCase().opLine()),
+							Impl: []string{obs[j].events}, Model: []string{want}, At: pre,
+							Note: fmt.Sprintf("step %d of the one-connection sequence [%s] store=%s", j+1, strings.Join(seq, "; "), storeText)})
+					}
+					authorised := true
+					for _, grp := range st.cmd.need(st.voter) {
+						ok := false
+						for _, p := range grp {
+							if c18Rule(sp.es, st.pres.user, st.pres.pass, p) {
+								ok = true
+							}
+						}
+						if !ok {
+							authorised = false
+						}
+					}
+					if !authorised && (strings.Contains(obs[j].events, "action:") || strings.Contains(obs[j].events, "stream") || obs[j].errText == "" || obs[j].leak) {
+						rep.Fail("cluster-session:"+st.cmd.name+":served-when-denied-after-earlier-commands-on-the-connection",
+							fmt.Sprintf("one connection, commands in order [%s] against store %s: command %d is not authorised, yet the node did: %s (response error %q)", strings.Join(seq, "; "), storeText, j+1, obs[j].events, obs[j].errText),
+							map[string]interface{}{"store": storeText, "sequence": seq, "failing_step": j + 1, "observed_events": obs[j].events, "error": obs[j].errText})
+					}
+					if authorised && obs[j].errText == "unauthorized" {
+						rep.Fail("cluster-session:"+st.cmd.name+":refused-although-authorised",
+							fmt.Sprintf("one connection, commands in order [%s] against store %s: command %d is authorised, yet it was refused", strings.Join(seq, "; "), storeText, j+1),
+							map[string]interface{}{"store": storeText, "sequence": seq, "failing_step": j + 1})
+					}
+				}
+				rep.TracesValidated++
+			}
 		}
 		node.svc.Close()
 		rep.Case("cluster-store:"+storeText, yes > 0 && no > 0)
